@@ -775,6 +775,7 @@ func (p *Parser) evaluateImports(ctx context) ([]Statement, error) {
 		}
 	}
 	statements := []Statement{}
+	privateFunctions := map[string]bool{} // Private functions of imported files that have already been added.
 
 	// Add functions add variables.
 	for _, statement := range statementsTemp {
@@ -797,6 +798,10 @@ func (p *Parser) evaluateImports(ctx context) ([]Statement, error) {
 
 			if _, exists = ctx.functions[name]; !exists && definedFunction.Public() {
 				ctx.functions[name] = definedFunction
+			} else if !exists {
+				// A file that is reached along several import paths contributes its private functions only once, too.
+				exists = privateFunctions[name]
+				privateFunctions[name] = true
 			}
 		}
 
